@@ -1,8 +1,142 @@
-(* C15 — DyadCarrier behaves exactly like the dense matrix it represents (statements only). *)
+(* C15 — DyadCarrier behaves exactly like the dense matrix it represents.
+   Statements only; every proof is `exact <lemma>`; Print Assumptions under each.
+
+   Vocabulary (definitions in Model/Dyad.v, Model/DyadSpec.v, Proofs/DyadP.v):
+   * carrier  = {us vs : list of stored vectors, each with its own dtype flag; ulen vlen : Z (negative = unknown); cplx}
+   * wf c     = the invariant of the class: as many u as v vectors, every u has length ulen, every v length vlen,
+                a complex stored vector makes the carrier complex
+   * dm       = {dr dc : declared shape; dmat : plain matrix; dflag : numpy's promoted dtype}   (the dense side)
+   * R c d    = ulen c = dr d /\ vlen c = dc d /\ todense c = dmat d /\ (cplx c = true -> dflag d = true)
+                "d is the dense image of c": same shape, same entries, and the carrier is complex only if numpy's
+                promotion rule makes the dense result complex
+   * Rres     = R on carrier results, equality of data/shape and the same bound on the complex flag for
+                scalar / vector / matrix / batch results, equality of the error class for documented restrictions
+   * dstep / drun = the same operation / program on the dense side (None = outside the domain: non-conforming
+                shapes, out-of-range indices, unknown shape where numpy needs one) *)
 From Coq Require Import ZArith List Bool.
-From Pymoto Require Import Base.Gauss Base.Mat Model.Dyad.
+From Pymoto Require Import Base.Gauss Base.Mat Model.Dyad Model.DyadSpec Proofs.DyadP.
 Import ListNotations.
 Open Scope Z_scope.
 
-Example C15_placeholder : todense (empty 1 1) = [[c0]].
-Proof. reflexivity. Qed.
+(* abstraction function: todense() is the sum of the outer products, entry by entry, for any number of dyads *)
+Theorem C15_todense : forall c, wf c ->
+  todense c = mtab (Z.to_nat (ulen c)) (Z.to_nat (vlen c))
+                   (fun i j => csum (map (fun p => vget (vd (fst p)) i * vget (vd (snd p)) j)%C (combine (us c) (vs c)))).
+Proof. exact todense_tab. Qed.
+Print Assumptions C15_todense.
+
+(* construction from vector lists / blocks / scalars / shape only, and add_dyad(u, v, fac) *)
+Theorem C15_constructor : forall u v r cn d', dadd_dyad (dzero r cn) u v None = Some d' ->
+  exists c', new u v r cn = Ok c' /\ wf c' /\ R c' d'.
+Proof. exact new_refines. Qed.
+Print Assumptions C15_constructor.
+
+Theorem C15_add_dyad : forall c d u v fac d', wf c -> R c d -> dadd_dyad d u v fac = Some d' ->
+  exists c', add_dyad c u v fac = (c', None) /\ wf c' /\ R c' d'.
+Proof. exact add_dyad_refines. Qed.
+Print Assumptions C15_add_dyad.
+
+(* copy, +A, -A, transpose / T, conj, real, imag *)
+Theorem C15_unary : forall k c d, wf c -> R c d -> exists c', un_apply k c = Ok c' /\ wf c' /\ R c' (dun k d).
+Proof. exact un_refines. Qed.
+Print Assumptions C15_unary.
+
+(* A * s and s * A *)
+Theorem C15_scalar_mul : forall c d x f, wf c -> R c d -> exists c', mul c x f = Ok c' /\ wf c' /\ R c' (dmul d x f).
+Proof. exact mul_refines. Qed.
+Print Assumptions C15_scalar_mul.
+
+Theorem C15_scalar_rmul : forall c d x f, wf c -> R c d -> exists c', rmul c x f = Ok c' /\ wf c' /\ R c' (dmul d x f).
+Proof. exact rmul_refines. Qed.
+Print Assumptions C15_scalar_rmul.
+
+(* A += B, A -= B *)
+Theorem C15_inplace_add_sub : forall (minus : bool) c o d od d', wf c -> wf o -> R c d -> R o od ->
+  diadd minus d od = Some d' ->
+  exists c', (if minus then isub c o else iadd c o) = (c', None) /\ wf c' /\ R c' d'.
+Proof. exact iadd_refines. Qed.
+Print Assumptions C15_inplace_add_sub.
+
+(* A + x, x + A, A - x, x - A (x: scalar 0, carrier, broadcast dense array), A @ x, x @ A, A.dot(x) (x: vector, matrix) *)
+Theorem C15_binary : forall k c d x dx r, wf c -> R c d -> Rarg x dx -> dbin k d dx = Some r -> Rres (bin_apply k c x) r.
+Proof. exact bin_refines. Qed.
+Print Assumptions C15_binary.
+
+Theorem C15_diagonal : forall c d k, wf c -> R c d -> out_le (diagonal c k) (ddiag d k).
+Proof. exact diag_refines. Qed.
+Print Assumptions C15_diagonal.
+
+(* A[i, j]: element, row / column slice, paired index arrays, sub-block *)
+Theorem C15_getitem : forall c d i j r, wf c -> R c d -> dget d i j = Some r -> Rres (getitem c i j) r.
+Proof. exact get_refines. Qed.
+Print Assumptions C15_getitem.
+
+(* A[i, :] = 0, A[:, j] = 0, A[:, :] = 0, and the documented errors *)
+Theorem C15_setitem : forall c d i j v d' e, wf c -> R c d -> dset d i j v = Some (d', e) ->
+  exists c', setitem c i j v = (c', e) /\ wf c' /\ R c' d'.
+Proof. exact set_refines. Qed.
+Print Assumptions C15_setitem.
+
+(* contract(): plain, with a (dense or sparse) matrix, sliced rows / cols, batched *)
+Theorem C15_contract : forall c d mat rows cols r, wf c -> R c d -> dcontract d mat rows cols = Some r ->
+  Rres (contract c mat rows cols) r.
+Proof. exact contract_refines. Qed.
+Print Assumptions C15_contract.
+
+(* contract_multi(): a list of sparse matrices (coo triples), None entries and dense fall-backs *)
+Theorem C15_contract_multi : forall c d mats r, wf c -> R c d -> dcontract_multi d mats = Some r ->
+  Rres (contract_multi c mats) r.
+Proof. exact multi_refines. Qed.
+Print Assumptions C15_contract_multi.
+
+(* one step and whole programs: the dense image of the final store is the dense program's final store and every
+   output agrees, for every program the dense side accepts; the invariant is preserved *)
+Theorem C15_step : forall o s ds ds' r', wfs s -> Rs s ds -> dstep o ds = Some (ds', r') ->
+  exists s' r, step o s = (s', r) /\ wfs s' /\ Rs s' ds' /\ Rres r r'.
+Proof. exact step_refines. Qed.
+Print Assumptions C15_step.
+
+Theorem C15_program : forall p s ds ds' rs', wfs s -> Rs s ds -> drun p ds = Some (ds', rs') ->
+  exists s' rs, run p s = (s', rs) /\ wfs s' /\ Rs s' ds' /\ Forall2 Rres rs rs'.
+Proof. exact program_refines. Qed.
+Print Assumptions C15_program.
+
+(* value semantics: a step changes no slot of the store other than the one it binds / mutates in place *)
+Theorem C15_value_semantics : forall o s n, writes o <> Some n -> (n < length s)%nat ->
+  nth_error (fst (step o s)) n = nth_error s n.
+Proof. exact step_frame. Qed.
+Print Assumptions C15_value_semantics.
+
+(* ---- non-vacuity: a concrete program with real/complex mixtures, zero vectors, an empty carrier, slicing, zeroing and
+   contraction is inside the domain of the dense side (so C15_program applies to it from the empty store) *)
+Definition demo : list op :=
+  [ ONew 0 (UList [IVec (rv [1; 2; 3]) false; IVec [(0, 1); (2, 0); (0, 0)] true; IVec (rv [0; 0; 0]) false])
+           (UList [IVec (rv [1; -1]) false; IVec (rv [2; 5]) false; IVec (rv [1; 1]) false]) (-1) (-1);
+    ONew 1 UNone UNone (-1) (-1);
+    OUn UImag 2 0;
+    OBin BMatmul 3 0 (AMat 2 2 (rm [[1; 2]; [3; 4]]) false);
+    OIsub 3 2;
+    OIadd 3 1;
+    OBin BAdd 1 3 (ASlot 0);
+    OGet 2 1 (ISlice (Some 1) None None) (IArr [1; -2]);
+    OGet 2 1 (IInt (-1)) (ISlice None None (Some (-1)));
+    OSet 1 (IArr [1; -2]) (ISlice None None None) c0;
+    OSet 1 (IInt 0) (IInt 0) c1;
+    OBin BSub 2 1 (AVec (rv [1; 1]) false);
+    ODiag 1 (-1);
+    OContract 1 (Some (mkcmat (Some [2]) 2 2 [rm [[1; 0]; [0; 1]]; rm [[0; 1]; [1; 0]]] false))
+              (Some (mkcidx (Some [2]) 2 [[0; 1]; [1; 2]])) None;
+    OContractMulti 1 [MSp [(0, 1, (2, 0)); (2, 0, (0, 1))] true; MNone; MDense (mkcmat None 3 2 [rm [[1; 1]; [1; 1]; [1; 1]]] false)];
+    OBin BRadd 2 1 (AScal c1 false) ].
+
+Example C15_program_nonvacuous : exists ds rs, drun demo [] = Some (ds, rs) /\ length rs = 16%nat /\ length ds = 4%nat.
+Proof. eexists _, _. split; [vm_compute; reflexivity | split; reflexivity]. Qed.
+
+Example C15_demo_outputs :
+  nth 8 (snd (run demo [])) (Er OtherE) = Ok (OVec [(-9, 0); (-3, 0)] true) /\
+  nth 10 (snd (run demo [])) (Ok ONone) = Er ValueE /\
+  nth 11 (snd (run demo [])) (Er OtherE) = Ok (OMat 3 2 [[(-4, 19); (-9, 29)]; [(-1, 0); (-1, 0)]; [(-4, 0); (-10, 0)]] true) /\
+  nth 13 (snd (run demo [])) (Er OtherE) = Ok (OBatch [2] [(-3, 19); (-3, 0)] true) /\
+  nth 14 (snd (run demo [])) (Er OtherE) = Ok (OVec [(-16, 55); (0, 0); (-23, 48)] true) /\
+  nth 15 (snd (run demo [])) (Ok ONone) = Er RuntimeE.
+Proof. vm_compute. repeat split. Qed.
